@@ -57,4 +57,44 @@ LoadResult(db, files) == LoadFrom(db, files, 1)
 
 (* the stored TRCs form an unbroken succession first..Latest *)
 Contiguous(db, first) == \A s \in DOMAIN db : db[s] # "none" <=> (first <= s /\ s <= Latest(db))
+-----------------------------------------------------------------------------
+(* C34 / C36 / C37: certificate chains and active TRCs.
+   certificate: [id, kind, signer, nb, na, ia]
+     kind    "as" / "ca" / "root" are well-formed certificates of that type (key usages, basic
+             constraints, ISD-AS attributes as in doc/cryptography/certificates.rst); every other kind
+             is some malformed certificate
+     signer  id of the certificate whose key signed it;  ia: abstract ISD-AS of the subject
+   TRC (for these properties): [serial, base, nb, na, grace, roots] with roots a set of certificate ids.
+   Certs is a function id -> certificate.                                                      *)
+ValidAt(c, t) == c.nb <= t /\ t <= c.na
+
+(* chain (sequence of ids) verifies against the roots of trc at time t -- from the statement:
+   AS certificate followed by the CA certificate that issued it, both well-formed, CA validity
+   covers AS validity, CA chains to a root of the TRC at the verification time.                 *)
+ChainRule(Certs, chain, trc, t) ==
+    IF Len(chain) # 2 THEN "not-two-certificates"
+    ELSE LET as == Certs[chain[1]]
+             ca == Certs[chain[2]] IN
+         IF as.kind # "as" THEN "first-not-as-certificate:" \o as.kind
+         ELSE IF ca.kind # "ca" THEN "second-not-ca-certificate:" \o ca.kind
+         ELSE IF as.signer # ca.id THEN "as-not-issued-by-ca"
+         ELSE IF ~(ca.nb <= as.nb /\ as.na <= ca.na) THEN "ca-validity-not-covering"
+         ELSE IF ca.signer \notin trc.roots THEN "ca-not-issued-by-trc-root"
+         ELSE IF ~ValidAt(ca, t) THEN "ca-not-valid-at-time"
+         ELSE IF ~ValidAt(Certs[ca.signer], t) THEN "root-not-valid-at-time"
+         ELSE ""
+ChainOK(Certs, chain, trc, t) == ChainRule(Certs, chain, trc, t) = ""
+\* drift level: the leaf must be valid at the verification time as well
+ChainStrict(Certs, chain, trc, t) == ChainOK(Certs, chain, trc, t) /\ ValidAt(Certs[chain[1]], t)
+
+(* Active TRCs at time now: the latest TRC while it is valid; additionally its predecessor while
+   now lies in the grace period the latest TRC announces (a base TRC has none).                 *)
+InGrace(latest, now) == latest.serial # latest.base /\ latest.nb <= now /\ now <= latest.nb + latest.grace
+ProviderRule(Certs, chain, latest, pred, hasPred, now) ==
+    IF ~(latest.nb <= now /\ now <= latest.na) THEN "latest-trc-not-valid"
+    ELSE IF ChainOK(Certs, chain, latest, now) THEN ""
+    ELSE IF hasPred /\ InGrace(latest, now) /\ ChainOK(Certs, chain, pred, now) THEN ""
+    ELSE IF hasPred /\ ChainOK(Certs, chain, pred, now) THEN "only-predecessor-verifies-outside-grace"
+    ELSE "no-active-trc-verifies:" \o ChainRule(Certs, chain, latest, now)
+ProviderOK(Certs, chain, latest, pred, hasPred, now) == ProviderRule(Certs, chain, latest, pred, hasPred, now) = ""
 =============================================================================
